@@ -330,6 +330,10 @@ func VerifyDualProofV2(proof *DualProofV2, sourceTxID, targetTxID uint64, source
 	}
 
 	if sourceTxID == targetTxID {
+		// the same transaction can not have two different accumulated hashes
+		if sourceAlh != targetAlh {
+			return ErrIllegalArguments
+		}
 		return nil
 	}
 
